@@ -6,6 +6,7 @@ import (
 	"github.com/orda-io/orda/client/pkg/iface"
 	"github.com/orda-io/orda/client/pkg/model"
 	"github.com/orda-io/orda/client/pkg/operations"
+	"github.com/orda-io/orda/client/pkg/simhook"
 	"sync"
 )
 
@@ -95,7 +96,9 @@ func (its *TransactionDatatype) setTransactionContextAndLock(tag string) *Transa
 	if tag != NotUserTransactionTag {
 		its.L().Infof("Begin the transaction: '%s'", tag)
 	}
+	simhook.BeforeLock(its.mutex, true)
 	its.mutex.Lock()
+	simhook.Yield("tx.locked")
 	its.isLocked = true
 	return &TransactionContext{
 		tag:      tag,
@@ -112,9 +115,11 @@ func (its *TransactionDatatype) BeginTransaction(
 	txCtx *TransactionContext,
 	newTxnOp bool,
 ) *TransactionContext {
+	simhook.Yield("tx.begin")
 	if its.isLocked && its.txCtx == txCtx {
 		return nil // called after DoTransaction() succeeds.
 	}
+	simhook.Yield("tx.begin.checked")
 	its.txCtx = its.setTransactionContextAndLock(tag)
 	if newTxnOp {
 		op := operations.NewTransactionOperation(tag)
@@ -151,6 +156,7 @@ func (its *TransactionDatatype) SetTransactionFail() {
 
 // EndTransaction is called when a transaction ends
 func (its *TransactionDatatype) EndTransaction(txCtx *TransactionContext, withOp, isLocal bool) errors.OrdaError {
+	simhook.Yield("tx.end")
 	if txCtx == its.txCtx {
 		defer its.unlock()
 		if its.success {
@@ -179,7 +185,9 @@ func (its *TransactionDatatype) unlock() {
 	if its.isLocked {
 		its.txCtx = nil
 		its.success = true
+		simhook.Yield("tx.unlock.before")
 		its.mutex.Unlock()
+		simhook.Yield("tx.unlock.after")
 		its.isLocked = false
 	}
 }
